@@ -7,8 +7,7 @@ Search half: two routers reachable through the API whose trees hold the same rou
 across nodes) answer every search identically, for every constraint environment — whatever order, flags, dirty marks
 or radix splits their histories left.
 Status: the search half is proved on live templates (`C05_same_live_set_same_results`: same set of (template, data)
-pairs ⇒ identical results for every path and every constraint environment), for histories whose inserted templates
-have pairwise different expansions, and on stored routes for all histories. **Partial**: the printing half
+pairs ⇒ identical results for every path and every constraint environment) for every history, and on stored routes. **Partial**: the printing half
 (`Display` equal) needs uniqueness of the canonical tree; it is tied by the FUN oracle (every drawing must be a
 function of the live set) over rebuilds in sorted order, all insertion orders of small subsets with detours, and
 repeated observations. -/
